@@ -176,15 +176,17 @@ class Integer(Type):
     def set_restricted_to_range(self, minimum, maximum, has_extension_marker):
         self.has_extension_marker = has_extension_marker
 
-        if minimum == 'MIN' or maximum == 'MAX':
-            if minimum != 'MIN':
-                # Semi-constrained: only the lower bound is PER-visible.
-                self.minimum = minimum
+        # MIN and MAX denote the bounds of the parent type, if it has
+        # any. A lower bound alone makes the type semi-constrained.
+        if minimum != 'MIN':
+            self.minimum = minimum
 
+        if maximum != 'MAX':
+            self.maximum = maximum
+
+        if self.minimum is None or self.maximum is None:
             return
 
-        self.minimum = minimum
-        self.maximum = maximum
         size = self.maximum - self.minimum
         self.number_of_bits = integer_as_number_of_bits(size)
 
